@@ -22,7 +22,7 @@ ASSUMPTIONS = [
     "non-termination is decided by a sys.monitoring step budget (3e6 JUMP|PY_START events for inputs <= 14 "
     "characters), never by wall-clock time",
 ]
-SIZES = {"quick": 150, "thorough": 4000}
+SIZES = {"quick": 400, "thorough": 4000}
 
 
 def c07_eval(req):
